@@ -63,7 +63,7 @@ func harnessFuncs(p *ssa.Package) []string {
 }
 
 func vxImport(kind string) string {
-	if kind == "legacy" {
+	if kind == "legacy" || kind == "cmdlegacy" {
 		return legacyPath + "/zzverif/vx"
 	}
 	return v5Path + "/zzverif/vx"
@@ -145,7 +145,7 @@ func buildTwin(t *Target, fns []*ssa.Function, outDir string) (*Twin, error) {
 		}
 		tw.bins[j.pkg.Pkg.Path()] = bin
 	}
-	if t.kind == "cmd" {
+	if t.kind == "cmd" || t.kind == "cmdlegacy" {
 		// the REAL command, built from the working tree without any overlay
 		bin := filepath.Join(outDir, "json-patch-real")
 		cmd := exec.Command("go", "build", "-o", bin, "./cmd/json-patch")
@@ -160,7 +160,7 @@ func buildTwin(t *Target, fns []*ssa.Function, outDir string) (*Twin, error) {
 }
 
 func (t *Target) modulePath() string {
-	if t.kind == "legacy" {
+	if t.kind == "legacy" || t.kind == "cmdlegacy" {
 		return legacyPath
 	}
 	return v5Path
